@@ -704,3 +704,20 @@ def run_c04(prop, tier, seed, replay, t0):
 
 
 PROPS["C04"] = {"run": run_c04}
+
+import gen_conc
+PROPS["C12"] = {"run": lambda p, tier, seed, replay, t0: run_node_property(
+    p, tier, seed, replay, t0, module="Iggy.Props.C12", gen=gen_conc.gen,
+    n_quick=48, n_thorough=1200, spec_prefixes=["stress-", "poll-", "obs-changed"],
+    corr_kinds=ALL_POLL_KINDS | {"figures"},
+    assumptions=ASSUME_NODE + [
+        "PARTIAL: the theorems quantify over all orders of lock-granularity atoms (append / poll / save under the partition lock); "
+        "behaviour below that granularity (tokio file buffering, spawn_blocking, memory ordering of atomics) is only sampled: "
+        "by real concurrent clients on a 4-thread runtime (stress) and by scheduling the persister task through hook H3 (hold/release)",
+        "stress runs: the interleaving is whatever the machine produces in this run (not replayable bit-for-bit); every request is "
+        "stamped before it is sent and after it is answered, the judge validates a linearisation against these stamps",
+        "no-wait confirmation: a poll must return a prefix of the specification's answer while batches are on their way to the log, "
+        "and exactly that answer once the persister task is idle"],
+    extra_tb=["hook H3 (server::verif::sched at PersisterTask::run) to hold/release the persister task",
+              "harness `stress` op (worker tasks with their own SDK clients, global stamp counter) and the runner's linearisation "
+              "builder (lib/vlib.py) — the linearisation is only a witness: the judge checks it against the stamps and replays it"])}
